@@ -13,7 +13,7 @@ def tar(argv, cwd=None):
     return run_cli(TapeArchiveCli().run, argv, cwd=cwd)
 
 
-TAPE_CONFUSABLE = ["bas", "csv", "BAS", "bin", "a", "1", "12345678.123", "0.0", "bas.csv", "csv.bas", "csv.bas,a", "x.csv", "x.CSV", "a.b"]
+TAPE_CONFUSABLE = ["bas", "csv", "BAS", "bin", "a", "1", "12345678.123", "0.0", "bas.csv", "csv.bas", "csv.bas,a", "x.csv", "x.CSV", "a.b", ".bas", ".b", ".csv"]
 
 
 def gen_name(rng, used, ext_choices=None):
